@@ -63,7 +63,9 @@ Definition tfidf_agrees (c : ecase) : bool :=
 (* the raw matcher scores the code's library computed for this query, against the transcription Model/Fuzzy.v
    (ASCII query and texts; other cases keep the library's score as an oracle) *)
 Definition fuzzy_agrees (c : ecase) : bool :=
-  negb (Fuzzy.ascii (k_q c)) ||
+  (* Model/Fuzzy.v computes in Z; the library's Go ints wrap once the adjacency bonus (which triples with every
+     consecutive matched rune) passes 2^63, i.e. after 39 consecutive matches: longer patterns keep the oracle *)
+  negb (Fuzzy.ascii (k_q c)) || negb (Nat.leb (List.length (k_q c)) 38) ||
   list_eqb2 (fun (d : command) (o : option Z) =>
       let t := (c_cmd d ++ [32%N] ++ c_desc d)%list in
       negb (Fuzzy.ascii t) ||
